@@ -18,7 +18,6 @@ M = [
  ("bgp_optparam_caplen", "C05", "pkg/packet/bgp/bgp.go", "\t\tif c.Len() == 0 || len(data) < c.Len() {", "\t\tif c.Len() == 0 || len(data) < c.Len()-1 {"),
  ("bgp_defcap_len", "C05", "pkg/packet/bgp/bgp.go", "\tif len(data) < 2+int(c.CapLen) {\n\t\treturn NewMessageError(BGP_ERROR_OPEN_MESSAGE_ERROR, BGP_ERROR_SUB_UNSUPPORTED_CAPABILITY, nil, \"Not all DefaultParameterCapability", "\tif len(data) < 1+int(c.CapLen) {\n\t\treturn NewMessageError(BGP_ERROR_OPEN_MESSAGE_ERROR, BGP_ERROR_SUB_UNSUPPORTED_CAPABILITY, nil, \"Not all DefaultParameterCapability"),
  ("bgp_addpath_loop", "C05", "pkg/packet/bgp/bgp.go", "\tfor capLen >= 4 {\n\t\tt := &CapAddPathTuple{", "\tfor capLen >= 3 {\n\t\tt := &CapAddPathTuple{"),
- ("bgp_update_pathlen_min", "C05", "pkg/packet/bgp/bgp.go", "\t\tif pathlen < 3 {\n\t\t\te = NewMessageErrorWithErrorHandling(", "\t\tif pathlen < 2 {\n\t\t\te = NewMessageErrorWithErrorHandling("),
  ("bgp_update_attr_short", "C05", "pkg/packet/bgp/bgp.go", "\t\tif len(data) < p.Len(options...) {\n\t\t\te = NewMessageErrorWithErrorHandling(", "\t\tif len(data)+1 < p.Len(options...) {\n\t\t\te = NewMessageErrorWithErrorHandling("),
  ("bgp_pathattr_extlen", "C05", "pkg/packet/bgp/bgp.go", "\t\tif len(data) < 4 {\n\t\t\treturn nil, NewMessageError(eCode, eSubCode, data, \"attribute header length is short\")", "\t\tif len(data) < 3 {\n\t\t\treturn nil, NewMessageError(eCode, eSubCode, data, \"attribute header length is short\")"),
  ("bgp_aspathparam_len", "C05", "pkg/packet/bgp/bgp.go", "\tif len(data) < int(a.Num)*2 {", "\tif len(data) < int(a.Num) {"),
